@@ -23,6 +23,7 @@ def check(cx):
         'R1.5 every copy is prefixed with the sender\'s own source and carries "PRIVMSG|NOTICE <target> :<text>" of exactly the given target and text',
         'R1.6 no other send site exists in the handler; a user\'s queue is written only by User::send_* and read only by the owner\'s receiver arm, which forwards the received string unchanged',
         'R1.8 the source string is "<nick>!~<user>@<host>" built from the connection\'s current fields, is recomputed by every setter of those fields, and a User\'s copy is only ever taken from its connection\'s string',
+        'R1.9 the rank sets the prefixed fan-outs iterate name members only: established empty / {creator} by both channel constructors (C16 R16.1/R16.3) and kept in step with the member map by every mutator (C04 R4.1/R4.4)',
         'R1.7 status prefix characters, target-type bits, rank sets and rank flags agree (get_privmsg_target_type, fan-out guards, ChannelUserModes::to_string)',
     ]
     ck.does_not_decide += ['that Channel.users equals the true membership after an arbitrary history (C04 decides the structural '
@@ -161,6 +162,12 @@ def check(cx):
     for fn, e in census:
         if is_call(e, 'recv') and e.data['args'][0] == ('field', CONN, 'receiver') and not fn.startswith(pi):
             r6.violation('%s|foreign-recv' % short_fn(fn), 'the message queue is drained outside the connection loop', loc=cx.loc(e.node))
+
+    # ---- R1.9 rank sets subset of members
+    r9 = cx.rule('R1.9', 'rank sets name members only (imported)', floor=2, kind='dependency')
+    depends(cx, r9, 'C04', ('R4.1', 'R4.4'), 'rank sets kept in step with the member map', only=r'writes-Channel\.users|^Channel|^ChannelModes')
+    depends(cx, r9, 'C16', ('R16.1', 'R16.3'), 'rank sets of a new channel name members only',
+            only=r'modes-not-cleaned|new_from_modes_and_cleanup\|fields|new_for_channel\|shape|new_on_user_join\|shape')
 
     # ---- R1.8 the source string
     r8 = cx.rule('R1.8', 'source string integrity', floor=8, kind='provenance')
